@@ -1109,7 +1109,7 @@ impl VM {
                 decorate_call!(pos => vm.run(env))?;
                 if let Some(ptr) = result_ptr {
                     vm.ops.jump(*ptr)?;
-                    vm.run(env)?;
+                    decorate_call!(pos => vm.run(env))?;
                     let (result_val, _) = vm.pop()?;
                     self.push(result_val, pos)?;
                 } else {
